@@ -195,13 +195,23 @@ def unit(arg):
         part.count('programs')
         part.count('programs_' + origin)
         vs = nc.check_program(prog, want=(prop,), part=part)
+        coarse = coarse_cause(prog)
         for p, sig, what, ctx in vs:
             if p != prop:
                 continue
+            if coarse and p in ('C02', 'C03'):
+                sig = '%s:program-with-%s' % (sig.split(':')[0], coarse)
             part.violation(sig, what + '\n--- program ---\n' + ctx['text'], nc.witness(prog))
     if sp[lo:hi]:
         part.outcome(lo)
     return part
+
+
+def coarse_cause(prog):
+    for st in ps.walk(prog):
+        if st[0] == 'feat' and features.FEATURES[st[1]].get('coarse'):
+            return features.FEATURES[st[1]]['coarse']
+    return None
 
 
 def run_names(ctx, prop):
@@ -244,4 +254,11 @@ def run_names(ctx, prop):
 
 def replay_names(w, prop):
     prog = nc.to_tuple(w['prog'])
-    return [(sig, what) for p, sig, what, _ctx in nc.check_program(prog, want=(prop,)) if p == prop]
+    coarse = coarse_cause(prog)
+    out = []
+    for p, sig, what, _ctx in nc.check_program(prog, want=(prop,)):
+        if p == prop:
+            if coarse and p in ('C02', 'C03'):
+                sig = '%s:program-with-%s' % (sig.split(':')[0], coarse)
+            out.append((sig, what))
+    return out
